@@ -1,19 +1,25 @@
-KERNELS = {'C14_functor': dict(src='kernels/C14_functor.cpp', flags=['-DNDEBUG'])}
+KERNELS = {'C14_functor': dict(src='kernels/C14_functor.cpp', flags=['-DNDEBUG']), 'C14_graph': dict(src='kernels/C14_graph.cpp', flags=['-DNDEBUG'])}
 def _c(e, **kw):
     c = {'MAXE': e, '_unwindset': ['in_data.0:%d' % (e*e + 2), 'k_fill_u32.0:%d' % (e*e + 2), 'agree.0:10', 'agree.1:10']}; c.update(kw); return c
 B2 = 'hybrid 2-d operand(s) (buffer capacity 16), extents 1..MAXE, all element data, every attribute and the result index symbolic; the functor expression (a type) is enumerated'
 def _h(name, unwind=8, quick=None, thorough=None, **kw):
     return dict(name=name, src='harnesses/C14.c', func='h_' + name, kernels=['C14_functor'], unwind=unwind,
                 quick=quick or [_c(3)], thorough=thorough or [_c(4)], bounds=B2, **kw)
-HARNESSES = [_h(n) for n in ('fn_transpose', 'fn_reshape', 'fn_flip', 'fn_slice', 'fn_invert', 'comp2', 'comp3', 'comp_sum', 'compb_inner', 'compb_inner_curry', 'compb_outer', 'compb_extract', 'extract_repeated')] + [
+HARNESSES = [_h(n) for n in ('fn_transpose', 'fn_reshape', 'fn_flip', 'fn_slice', 'fn_invert', 'comp2', 'comp3', 'comp4', 'comp_sum', 'compb_inner', 'compb_inner_curry', 'compb_outer', 'compb_extract', 'extract_repeated')] + [
   _h('fn_sum', quick=[_c(3, VAR=v) for v in (1, 3)], thorough=[_c(3, VAR=v) for v in (2, 4)] + [_c(4, VAR=v) for v in (1, 2, 3, 4)])] + [   # fn_sum: 112-165 s per variant
   _h('fn_add', quick=[_c(3, VAR=v) for v in (2, 3)], thorough=[_c(3, VAR=v) for v in (1, 4, 5)] + [_c(4, VAR=v) for v in (1, 2, 3, 4, 5)]),
   _h('fn_subtract', quick=[_c(3, VAR=v) for v in (1, 2, 3, 4, 5)], thorough=[_c(4, VAR=v) for v in (1, 2, 3, 4, 5)])]
+GPROGS = ['chain', 'diamond', 'shared', 'shared2', 'two', 'two_diamond']
+HARNESSES += [dict(name='graph', src='harnesses/C14_graph.c', func='h_graph', kernels=['C14_graph'], unwind=10, gate=False,
+                   bounds='STRUCTURAL (no symbolic variable: the compute graph is a function of types): for the enumerated view types over aliased leaves - chain exp(tanh(x)), diamond add(tanh(x),exp(x)), '
+                          'a leaf used inside a sub-view and directly (both operand orders), two leaves, a two-leaf diamond - the translated real code yields exactly the expected node set (leaf alias ids + view ids, all distinct) '
+                          'and edge set (one edge per operation input)',
+                   quick=[{'PROG': p} for p in GPROGS], thorough=[{'PROG': p} for p in GPROGS])]
 OUTSIDE = [
- 'the compute-graph sub-claim (get_compute_graph: one uniquely identified node per operand occurrence and per operation, edges from each operation\'s inputs; node ids are hashes of type names): '
- 'it depends on types only - there is no symbolic variable and nothing for a solver to quantify over; evaluating it concretely through this pipeline would be enumeration in disguise',
+ 'the compute-graph sub-claim is checked STRUCTURALLY only (harness graph): the graph depends on types, there is no symbolic variable and nothing for a solver to quantify over; the six enumerated view types are what is covered - '
+ 'other view types, graphs of functor compositions (get_compute_graph of a functor) and the node attributes (functor / operand payloads) are not',
  'functors are types: the list is enumerated (transpose, reshape, flip, slice, unary ufunc invert, sum / reduce_add with axis, binary ufuncs add and subtract, compositions of 2 and 3 functors, '
- 'a reduction and a binary functor inside a composition); accumulate, outer, matmul, conv, pooling, norms, combinators swap/dup/dig/bury and compositions of 4 functors are not covered',
+ 'a reduction and a binary functor inside a composition); accumulate, outer, matmul, conv, pooling, norms, combinators swap/dup/dig/bury and compositions of more than 4 functors are not covered',
  'ufuncs with multiplication (square, multiply): the equivalence of two multiplier circuits over symbolically selected elements did not return in 300 s; invert/add/subtract are used instead',
  'extraction from the depth-2 view with a repeated leaf ((a+b)-a) checks the operand ADDRESSES and their number only; its element values are a 3-operand broadcast composition (no verdict, see C13)',
  'operand dims other than 2, extents > 4, element types other than unsigned 32-bit, slices with empty selections (open finding of C05)',
@@ -25,8 +31,8 @@ ASSUMPTIONS = [
 CLAIM = dict(
  text='For the enumerated functors the solver shows, with operand shape, data, attributes and the result index symbolic: view::f(a, attrs) == fn::f[attrs](a) == the composition extracted by '
       'get_function_composition applied to the leaf == fn::apply(composition, get_function_operands(view)) (same dim, shape and element; equal to NumPy); for binary functors additionally every curry split '
-      '(fn::f(a,b), fn::f(a)(b), extracted f(a,b), f(a)(b)) with the operand order of subtract preserved; (f*g)(a) == f(g(a)) == the nested view; f*(g*h) == (f*g)*h == f*g*h == f(g(h(a))); '
+      '(fn::f(a,b), fn::f(a)(b), extracted f(a,b), f(a)(b)) with the operand order of subtract preserved; (f*g)(a) == f(g(a)) == the nested view; f*(g*h) == (f*g)*h == f*g*h == f(g(h(a))); all five parenthesisations of a 4-chain incl. (f*g)*(h*k); '
       'a reduction as outer functor; a binary functor as inner functor (all at once and curried) and as outer functor (remaining operand passed on); '
-      'the extracted operands are the addresses of the original leaves, in order, one per occurrence (also for a repeated leaf).',
- note='Bounded: 2-d hybrid operands, extents 1..3 (quick) / 1..4 (thorough). The functor list is enumerated. Compute graph: outside this technique. '
+      'the extracted operands are the addresses of the original leaves, in order, one per occurrence (also for a repeated leaf). Structurally (no symbolic variable): the compute graph of six enumerated view types, incl. shared leaves, has exactly one node per leaf and per operation and one edge per operation input.',
+ note='Bounded: 2-d hybrid operands, extents 1..3 (quick) / 1..4 (thorough). The functor list is enumerated. Compute graph: structural check of six enumerated view types (no symbolic variable). '
       'Trusted: clang-14 -O1 lowering, engine/ll2c.py, CBMC; validated per run by gate and witness assertions.')
